@@ -21,7 +21,7 @@ EXPLANATION = (
     "and no name comparison (value slices ignore guards of which only one outcome reaches the access; accesses that can only run "
     "on directed graphs are exempt).  R-C02-4 kind refusals of the query API (table frozen from the statement) guard every "
     "non-error return; every NodeNotFound/EdgeNotFound is conditional on a failed lookup.  R-C02-5 parallel edges are appended "
-    "(push) in both stores and read back in list order.  NOT decided: that queries return the right sets (value-level)."
+    "(push) in both stores and read back in list order.  R-C02-10 in add_edge the position-keyed adjacency sets receive, under the same test of specs.directed, the update the name-keyed ones receive (same endpoint as key and as member).  R-C02-11 a node list taken from the raw traversal rows is de-duplicated on every path that returns it.  NOT decided: that queries return the right sets (value-level)."
 )
 TRUSTED = ["rustc MIR construction and privacy checking", "std HashMap/Vec semantics", "over-approximated dependence (absence of dependence is definite)"]
 
@@ -59,6 +59,7 @@ def run(ctx):
     rule5(ctx, prog, flows, effects)
     rule6(ctx, prog, flows)
     rule7(ctx, prog, flows)
+    rule11(ctx, prog, flows)
     from graphrules import no_edge_identity_collections
 
     no_edge_identity_collections(ctx, prog, "R-C02-9", ("graph::",), "on a multi-edge graph not all parallel edges are retrievable through this query, and it disagrees with get_all_edges()")
@@ -410,7 +411,9 @@ def rule5(ctx, prog, flows, effects):
 
 
 def rule6(ctx, prog, flows):
-    from graphrules import adjacency_entries_only_for_new_nodes
+    from graphrules import adjacency_entries_only_for_new_nodes, adjacency_set_updates_agree
+
+    adjacency_set_updates_agree(ctx, prog, flows, "R-C02-10", "the successor / predecessor queries answered from the position-keyed sets (get_successor_nodes, get_predecessor_nodes, get_neighbor_nodes) then disagree with the name-keyed maps and with get_all_edges(): an undirected edge added as (b, a) with b after a is not listed among a's neighbours")
 
     adjacency_entries_only_for_new_nodes(ctx, prog, flows, "R-C02-6", "so `%s` no longer agrees with the edge stores (successor / predecessor queries lose edges that get_all_edges still lists)")
 
@@ -454,3 +457,50 @@ def run_once(ctx):
     import witness
 
     witness.run_witnesses(ctx, "R-C02-1w", ["C02"])
+
+
+RAW_LISTS = ("get_successor_nodes_by_index", "get_predecessor_nodes_by_index")
+DEDUPING = ("dedup", "dedup_by", "dedup_by_key", "unique", "unique_by")
+
+
+def rule11(ctx, prog, flows):
+    """The traversal lists (`successors_vec` / `predecessors_vec`) are the searches' adjacency: one entry per stored
+    orientation.  An undirected self-loop (n, n) is pushed by both the forward and the mirrored update, so n's row
+    lists n twice; on a directed graph a reciprocal pair puts the neighbour into both rows.  A query that hands NODES
+    taken from those rows to the caller therefore has to drop the repetitions on every path on which it answers --
+    otherwise get_neighbor_nodes disagrees with the neighbour SETS (get_successors_map) and with the stored edges."""
+    from guard import ok_producers
+
+    ctx.rule("R-C02-11", "a node list built from the raw traversal rows passes through a de-duplication on every path that returns it")
+    n = 0
+    for p in sorted(prog.bodies):
+        b = prog.bodies[p]
+        if b.kind == "closure" or not b.short.startswith("graph::query::"):
+            continue
+        rty = b.local_ty(0)
+        if "node::Node<" not in rty or "Vec<" not in rty:
+            continue
+        fl = flows.of(b)
+        prods = ok_producers(b)
+        if prods is None:
+            prods = [(bb_, "return", st_) for (bb_, st_) in b.assigns_to(0)]
+        for (bb, what, site) in prods:
+            ops = site.rv.ops if getattr(site, "rv", None) is not None else site.args
+            reads = set()
+            for o in ops:
+                reads |= set(fl._op_reads(o))
+            names = set()
+            for nd in fl.slice_local(reads, data_only=True):
+                if nd[0] == "CALL":
+                    t = b.blocks[nd[1]].term
+                    if t.callee:
+                        names.add(t.callee.short.split("::")[-1])
+            raw = sorted(names & set(RAW_LISTS))
+            if not raw:
+                continue
+            n += 1
+            dd = sorted(names & set(DEDUPING))
+            is_set = "HashSet<" in rty or "BTreeSet<" in rty
+            ctx.require(bool(dd) or is_set, "R-C02-11", "dedup|%s|%d" % (b.short, n), "%s: the nodes taken from %s pass through %s" % (b.short.split("::")[-1], "/".join(raw), "/".join(dd) or "a set"),
+                        "%s returns nodes taken from %s without removing repetitions on this path: the row of a node with an undirected self-loop lists the node twice (and a reciprocal directed pair appears in both rows), so the answer lists a neighbour twice and disagrees with the neighbour sets and with the stored edges" % (b.short, "/".join(raw)), loc_str(site.span))
+    ctx.floor("R-C02-11", "raw_row_node_lists", n, 1)
